@@ -132,6 +132,23 @@ Definition on_poll (code : Z) (polled attempts : Z) : action :=
   else if (code =? POLL_WAITING) || (code =? POLL_PASSED) then ARelease
   else AKeepPolling.
 
+(* ---- finish(): what ONE poll answer does to the cache entry of that name and to the
+   source file.  cached = hash of the cache entry as it is now ([] = the entry is a new
+   version that could not be hashed yet), polled = hash of the version the answer is
+   about ([] = not given); can_delete = the tag says delete (and the delay has passed);
+   disk: 0 = the file is the cached version, 1 = it changed since, 2 = it is gone *)
+Definition confirmation_applies (cached polled : name) : bool :=
+  match polled with [] => true | _ => name_eqb cached polled end.
+
+Record fin_out := mkfo { fo_done : bool; fo_removed : bool; fo_retry : bool }.
+
+Definition finish_step (code : Z) (cached polled : name) (was_done can_delete : bool) (disk : Z) : fin_out :=
+  if (code =? POLL_WAITING) || (code =? POLL_PASSED) then
+    if confirmation_applies cached polled then
+      mkfo true (negb was_done && can_delete && (disk =? 0)) false
+    else mkfo was_done false false
+  else mkfo was_done false true.
+
 (* ---- which files a scan hands to the sender (C17) ------------------------------
    store/local.go handleNode + shouldIgnore, client.go includeScannedFile.
    Pattern matching is regexp (library): its verdicts are inputs. *)
@@ -187,6 +204,19 @@ Definition scan_file (cfg : scan_cfg) (now : Z) (c : scache) (d : dfile) : bool 
 Definition scan_once (cfg : scan_cfg) (now : Z) (world : list dfile) (c : scache) : list dfile * scache :=
   let ret := filter (scan_file cfg now c) world in
   (ret, fold_left (fun c d => sc_put c (df_name d) (df_size d, df_mtime d)) ret c).
+
+(* the periodic clean-up at the head of Broker.scan (once per cache-age interval):
+   every entry whose file is no longer in the outgoing directory is dropped - and
+   nothing else, whether the entry is confirmed or not *)
+Definition sc_present (world : list dfile) (n : name) : bool :=
+  existsb (fun d => name_eqb (df_name d) n) world.
+
+Definition sc_clean (world : list dfile) (c : scache) : scache :=
+  filter (fun e => sc_present world (fst e)) c.
+
+Definition scan_once_c (clean : bool) (cfg : scan_cfg) (now : Z) (world : list dfile) (c : scache)
+  : list dfile * scache :=
+  scan_once cfg now world (if clean then sc_clean world c else c).
 
 (* a history: each scan sees the configuration (the disable marker can come and go),
    the clock and the directory tree of its moment *)
